@@ -64,6 +64,15 @@ def tt_round(E, s):
         x = (z + x) if s['plus_zero'] == 'front' else (x + z)
         xc = list(x.cores)
         R = [int(r) for r in x.R]
+    if s.get('prelude') == 'round_set_core':
+        # an earlier rounding of the same object followed by a core replacement must not leak into this rounding
+        x.round(E.pos_scalar('eps0', hi=1))
+        k = s.get('set_core', 0)
+        shp = [int(v) for v in xc[k].shape]
+        x.set_core(k, E.pos_tensor('newcore', shp, [tuple(p) for p in s['patterns'][k]], s.get('dtype', 'float64')))
+        xc = list(x.cores)
+    elif s.get('prelude') == 'round':
+        x.round(E.pos_scalar('eps0', hi=1))
     if s.get('eps') == 'default':
         eps = None
     elif s.get('eps') == 'zero':
